@@ -26,11 +26,57 @@ def run(ctx, rep, findings):
                 "just_once) x 1-4 iterations x random continuation compositions; each run traced and replayed on the "
                 "Lean machine. Non-trivial: completed, >= 3 rows, uses reference/nested/friends.")
     l1cases.run_l1(ctx, rep, "C01", GEN, ORACLES, findings, 1200, 12000, FIXED)
+    for _ in range(ctx.scale(80, 800)):
+        run_varying(rep, varying_case(ctx.rng))
+    rep.count("family:row-count-varies-with-iteration")
+
+
+def varying_case(rng):
+    """Tables whose number of rows varies with the iteration (0 in some, also in the first) over chains of three and
+    more runs: a table is idle in some runs and gets its first id in a continued one."""
+    a, b = rng.choice([1, 2, 3]), rng.choice([1, 2, 3])
+    v = rng.choice([2, 3])
+    lines = [f"- snowfakery_version: {v}", "- object: K", "  nickname: tick"]
+    for t, (x, y) in (("T", (a, b)), ("U", (b, rng.choice([1, 2, 4])))):
+        lines += [f"- object: {t}", "  count: ${{ (tick.id - %d) * (tick.id - %d) }}" % (x, y), "  fields:", "    k:", "      reference: tick"]
+        if rng.random() < 0.4:
+            lines += ["  friends:", "    - object: W", "      fields:", "        t:", f"          reference: {t}"]
+    k = rng.randint(3, 5)
+    from . import recipes
+
+    parts = rng.choice([c for c in recipes.all_compositions(k) if len(c) >= 3])
+    return {"kind": "varying", "recipe": "\n".join(lines) + "\n", "parts": parts}
+
+
+def run_varying(rep, case):
+    chain = l1.run_chain(case["recipe"], case["parts"], trace=False, final_continuation=False)
+    rep.count("varying:" + chain.outcome.split(":")[0])
+    rep.case({"recipe": case["recipe"], "parts": case["parts"]}, nontrivial=chain.outcome == "ok")
+    if chain.outcome != "ok":
+        # the uninterrupted run of such a recipe always completes: a failing chain is C04's subject, but ids cannot be
+        # dense either
+        one = l1.run_chain(case["recipe"], [sum(case["parts"])], trace=False, final_continuation=False)
+        if one.outcome == "ok":
+            rep.violation("C01:chain-fails-where-single-run-completes", f"chain {case['parts']} fails ({(chain.error or '')[:140]}); one run of {sum(case['parts'])} iterations completes", case, "ok", chain.error)
+        return
+    ids = {}
+    for run_ in chain.runs:
+        for t, fields in run_.rows:
+            ids.setdefault(t, []).append(dict(fields).get("id"))
+    for t, l in ids.items():
+        if l != list(range(1, len(l) + 1)):
+            rep.violation("C01:ids-not-dense", f"ids of table {t} over the chain {case['parts']} are {l}, not 1..{len(l)}", case, list(range(1, len(l) + 1)), l)
+            return
 
 
 def replay(case, rep):
+    if case.get("kind") == "varying":
+        run_varying(rep, case)
+        return
     l1cases.replay_l1(case, rep, "C01", ORACLES)
 
 
 def shrink(case, signature):
+    if case.get("kind") == "varying":
+        return case
     return l1cases.shrink_recipe(case, signature, "C01", ORACLES)
